@@ -118,7 +118,11 @@ Eval(e, st) ==
     [] e.k = "blank" -> BlankV
     [] e.k = "int"   -> IntV(e.v)
     [] e.k = "str"   -> Lit(e.v, st)
-    [] e.k = "var"   -> EvalPath(e.segs, 2, Resolve(e.segs[1].v, st), st)
+    [] e.k = "var"   ->
+         LET v == EvalPath(e.segs, 2, Resolve(e.segs[1].v, st), st) IN
+         \* "touch" is not a policy of the library: it is the most eager reading of
+         \* "uses a variable that does not exist" (C16) - fail at the lookup itself
+         IF st.cfg.undef = "touch" /\ v.t = "undef" THEN Err("UndefinedError") ELSE v
     [] e.k = "range" ->
          LET a == Eval(e.a, st)
              b == Eval(e.b, st) IN
